@@ -234,6 +234,17 @@ def fold_function(fn):
     return total
 
 
+def _plain_target(t):
+    """a name, or a flat tuple/list of names (`a, b = X if c else Y`)"""
+    return isinstance(t, ast.Name) or (isinstance(t, (ast.Tuple, ast.List)) and t.elts and all(isinstance(x, ast.Name) for x in t.elts))
+
+
+def _copy_target(t):
+    if isinstance(t, ast.Name):
+        return ast.copy_location(ast.Name(id=t.id, ctx=ast.Store()), t)
+    return ast.copy_location(type(t)(elts=[_copy_target(x) for x in t.elts], ctx=ast.Store()), t)
+
+
 def split_conditionals(tree):
     """`x = A if c else B` / `return A if c else B` (conditional expression at the top of the value, plain-name target)
     become the if/else statement with the same two assignments / returns.  Same program; one shape for the rules, which
@@ -261,16 +272,14 @@ def split_conditionals(tree):
             e = s.value
             if isinstance(s, ast.Return):
                 a, b = ast.Return(value=e.body), ast.Return(value=e.orelse)
-            elif len(s.targets) == 1 and isinstance(s.targets[0], ast.Name) and getattr(s, "type_comment", None) is None:
-                a = ast.Assign(targets=[ast.Name(id=s.targets[0].id, ctx=ast.Store())], value=e.body, type_comment=None)
-                b = ast.Assign(targets=[ast.Name(id=s.targets[0].id, ctx=ast.Store())], value=e.orelse, type_comment=None)
+            elif len(s.targets) == 1 and _plain_target(s.targets[0]) and getattr(s, "type_comment", None) is None:
+                a = ast.Assign(targets=[_copy_target(s.targets[0])], value=e.body, type_comment=None)
+                b = ast.Assign(targets=[_copy_target(s.targets[0])], value=e.orelse, type_comment=None)
             else:
                 return [s]
             n += 1
             for x in (a, b):
                 ast.copy_location(x, s)
-                for t in getattr(x, "targets", []):
-                    ast.copy_location(t, s.targets[0])
             node = ast.If(test=e.test, body=split(a), orelse=split(b))
             ast.copy_location(node, s)
             node._xv_from_ifexp = True  # type: ignore[attr-defined]
